@@ -237,6 +237,70 @@ class C20(Prop):
             init = self._fresh(3, 0.01, (1 << 32) + 5, 0)
             yield mk('c20.hist', init, 'i:616263,d,c:616263,c:00,s', tag='hist-bigtweak')
 
+        # (e) state left behind (lesson 5) ----------------------------------------------------------------
+        # MurmurHash3 called again: same data under other seeds, same seed on other data, the same call repeated,
+        # after a call that raised (seed >= 2^32: AssertionError), equal-but-not-identical bytes objects
+        for ln in (0, 1, 3, 4, 5, 8, 20, 33, 36, 67, 300):
+            for rep in range(2 if not big else 10):
+                if not mine(1):
+                    continue
+                d, d2 = rng.randbytes(ln), rng.randbytes(ln)
+                s1, s2 = rng.choice(seeds), rng.randrange(1 << 32)
+                calls = [(s1, d), (s2, d), (s1, d), (1 << 32, d), (s1, d), (s1, d2), (s2, d2), (SCHED, d), (s1, d),
+                         ((1 << 32) + s1, d2), (s2, d)]
+                yield mk('c20.murmurSeq', ','.join('%d:%s' % (a, b.hex()) for a, b in calls), tag='murmur-seq')
+        # ordered pairs of observers / mutators on ONE filter object (not rebuilt in between), then the answers again
+        for (init_kind, n, rate) in (('n', 3, 0.01), ('n', 50, 0.001), ('w', 0, 0)):
+            es = self._elems(rng, 3)
+            e1, e2 = ('b', rng.randbytes(20)), ('b', rng.randbytes(32))
+            op1 = ('o', rng.randbytes(32), 1)
+            obs = [self._tok('has', e1), self._tok('has', e2), self._tok('has', op1), self._tok('ins', e2),
+                   self._tok('ins', op1), 'd', 's', 'r', 'z', 'p']
+            for X in obs:
+                for Y in obs:
+                    if not mine(1):
+                        continue
+                    if init_kind == 'n':
+                        init = self._fresh(n, rate, 2147483649, 1)
+                    else:
+                        init = 'w:' + wire(bytes(9) + b'\x10', 7, 5, 2).hex()
+                    ops = [self._tok('has', e1), self._tok('ins', e1), X, Y, X, self._tok('has', e1),
+                           self._tok('has', e2), self._tok('has', op1), 'd', 's']
+                    yield mk('c20.hist', init, ','.join(ops), tag='observer-pairs')
+        # several filters alive at once, interleaved (identical parameters too: nothing may be shared between
+        # instances), including one whose serialisation raises (tweak >= 2^32) and is used again afterwards
+        for rep in range(40 if not big else 400):
+            if not mine(1):
+                continue
+            tw = rng.choice(tweaks)
+            kinds = rng.choice([('a', 'a'), ('a', 'b'), ('a', 'w'), ('w', 'w'), ('a', 'a', 'w'), ('a', 'x'), ('w', 'x')])
+            inits = []
+            wdata = rng.randbytes(rng.choice([1, 2, 8]))
+            for kd in kinds:
+                if kd == 'a':
+                    inits.append(self._fresh(3, 0.01, tw, 1))
+                elif kd == 'b':
+                    inits.append(self._fresh(rng.choice([1, 5, 40]), rng.choice([0.02, 0.001]), rng.randrange(1 << 32), 0))
+                elif kd == 'w':
+                    inits.append('w:' + wire(wdata, 3, tw, 1).hex())
+                else:
+                    inits.append(self._fresh(3, 0.01, (1 << 32) + 7, 0))
+            pool = self._elems(rng, 5)
+            ops = []
+            for _ in range(rng.choice([6, 12, 25])):
+                i_f = rng.randrange(len(inits))
+                r = rng.random()
+                if r < 0.4:
+                    t = self._tok('ins', rng.choice(pool))
+                elif r < 0.75:
+                    t = self._tok('has', rng.choice(pool))
+                else:
+                    t = rng.choice(['d', 's', 'r', 'p', 'z'])
+                ops.append('%d.%s' % (i_f, t))
+            for i_f in range(len(inits)):
+                ops += ['%d.%s' % (i_f, self._tok('has', e)) for e in pool] + ['%d.d' % i_f, '%d.s' % i_f]
+            yield mk('c20.multi', '|'.join(inits), ','.join(ops), tag='multi')
+
         # (d) filters from the wire ------------------------------------------------------------------
         datas = [b'', b'', b'\x00', b'\xff', b'\xfe', b'\x01', b'\x00\x00', b'\xff\xff', bytes(3), bytes(8),
                  b'\xff\x00', b'\xff\x00\x00\x00', b'\xff' + bytes(20), b'\x00\xff',
@@ -340,6 +404,44 @@ class C20(Prop):
                 break
         return ','.join(out)
 
+    def _run_multi(self, inits, ops):
+        B = self.B
+        fs = []
+        for init in inits:
+            ip = init.split(':')
+            if ip[0] == 'n':
+                fs.append(B.CBloomFilter(int(ip[1]), float(ip[2]), int(ip[5]), int(ip[6])))
+            else:
+                fs.append(B.CBloomFilter.deserialize(bytes.fromhex(ip[1])))
+        out = []
+        for tok in ops:
+            i_f, op = tok.split('.', 1)
+            i_f = int(i_f)
+            p = op.split(':')
+            f = fs[i_f]
+            try:
+                if p[0] in ('i', 'o'):
+                    f.insert(self._elem(p))
+                    out.append('.')
+                elif p[0] in ('c', 'q'):
+                    out.append('1' if f.contains(self._elem(p)) else '0')
+                elif p[0] == 'd':
+                    out.append(bytes(f.vData).hex())
+                elif p[0] == 's':
+                    out.append(f.serialize().hex())
+                elif p[0] == 'r':
+                    fs[i_f] = B.CBloomFilter.deserialize(f.serialize())
+                    out.append('.')
+                elif p[0] == 'z':
+                    out.append('1' if f.IsWithinSizeConstraints() else '0')
+                elif p[0] == 'p':
+                    out.append('%d/%d/%d' % (f.nHashFuncs, f.nTweak, f.nFlags))
+                else:
+                    raise ValueError(op)
+            except Exception as e:  # noqa: BLE001  - recorded; the history goes on with the filter as it is
+                out.append('err:' + exc_family(e))
+        return ','.join(out)
+
     def impl(self, c):
         op, a = c['op'], c['args']
         if op in ('c20.murmur', 'c20.spec.murmur'):
@@ -351,6 +453,14 @@ class C20(Prop):
             return guarded(f)
         if op in ('c20.hist', 'c20.spec.hist'):
             return self._run_hist(a[0], a[1])
+        if op == 'c20.murmurSeq':
+            outs = []
+            for call in a[0].split(','):
+                sd, hx_ = call.split(':')
+                outs.append(guarded(lambda: str(self.B.MurmurHash3(int(sd), bytes(bytearray.fromhex(hx_))))))
+            return ','.join(outs)
+        if op == 'c20.multi':
+            return self._run_multi(a[0].split('|'), a[1].split(','))
         raise ValueError(op)
 
     @staticmethod
@@ -410,6 +520,8 @@ class C20(Prop):
     def nontrivial(self, c, io):
         if c['op'].endswith('murmur'):
             return c['args'][1] != ''
+        if c['op'] in ('c20.murmurSeq', 'c20.multi'):
+            return True
         if c['op'] == 'c20.ctor':
             return True
         return any(t[:2] in ('i:', 'o:', 'c:', 'q:') for t in c['args'][1].split(','))
